@@ -171,6 +171,73 @@ pub fn respell(text: &str, rng: &mut Rng) -> String {
     out
 }
 
+fn std_hash<T: std::hash::Hash>(t: &T) -> u64 {
+    use std::hash::Hasher;
+    let mut h = std::collections::hash_map::DefaultHasher::new();
+    t.hash(&mut h);
+    h.finish()
+}
+
+/// Parses both texts; `must_be_equal`: the ASTs have to be equal. Whenever they are equal
+/// (`PartialEq`), `Hash`, the JSON text and the FNV of the JSON have to agree too.
+fn ast_pair_defect(core: &Core, t1: &str, t2: &str, must_be_equal: bool) -> Option<String> {
+    let p = core.spec.parser(&core.scheme);
+    let (a1, a2) = match (p.parse(t1), p.parse(t2)) {
+        (Ok(a), Ok(b)) => (a, b),
+        (Err(_), Err(_)) => return None,
+        _ => return if must_be_equal { Some(format!("one spelling parses, the other does not: {t1:?} / {t2:?}")) } else { None },
+    };
+    if a1 != a2 {
+        return if must_be_equal { Some(format!("re-spelling changed the AST: {t1:?} / {t2:?}")) } else { None };
+    }
+    if std_hash(&a1) != std_hash(&a2) {
+        return Some(format!("equal ASTs have different std::hash::Hash values: {t1:?} / {t2:?}"));
+    }
+    let (j1, j2) = (serde_json::to_string(&a1).ok(), serde_json::to_string(&a2).ok());
+    if j1 != j2 {
+        return Some(format!("equal ASTs serialize differently: {t1:?} / {t2:?}"));
+    }
+    None
+}
+
+/// rewrites some quoted string literals without escapes as raw strings (`"ab"` -> `r"ab"`,
+/// `r#"ab"#`, `r##"ab"##`), leaving everything else as it is
+pub fn respell_literal_forms(text: &str, rng: &mut Rng) -> String {
+    let cs: Vec<char> = text.chars().collect();
+    let mut out = String::new();
+    let mut i = 0;
+    let is_word = |c: char| c.is_ascii_alphanumeric() || c == '_' || c == '.';
+    while i < cs.len() {
+        if cs[i] == '"' {
+            // find the closing quote; give up on this literal if it has escapes
+            let mut j = i + 1;
+            let mut plain = true;
+            while j < cs.len() && cs[j] != '"' {
+                if cs[j] == '\\' {
+                    plain = false;
+                    j += 1;
+                }
+                j += 1;
+            }
+            let end = (j + 1).min(cs.len());
+            let body: String = cs[(i + 1).min(end)..j.min(cs.len())].iter().collect();
+            let after_raw_prefix = i > 0 && (cs[i - 1] == '#' || (cs[i - 1] == 'r' && (i < 2 || !is_word(cs[i - 2]))));
+            if plain && j < cs.len() && !after_raw_prefix && !body.contains('#') && rng.chance(2, 3) {
+                let k = rng.below(3) as usize;
+                let hashes = "#".repeat(k);
+                out.push_str(&format!("r{hashes}\"{body}\"{hashes}"));
+            } else {
+                out.extend(cs[i..end].iter());
+            }
+            i = end;
+            continue;
+        }
+        out.push(cs[i]);
+        i += 1;
+    }
+    out
+}
+
 pub fn run_json(cfg: Cfg, out: &mut Out) {
     core::silence_panics();
     let mut rng = cfg.rng();
@@ -209,6 +276,21 @@ pub fn run_json(cfg: Cfg, out: &mut Out) {
                     if h2 != hans {
                         out.impl_failure(&op2, "re-spelling changed the hash");
                     }
+                    // "yields an equal AST" / "equal ASTs have equal hashes" on the Rust values
+                    if let Some(why) = ast_pair_defect(&core, &text, &t2, true) {
+                        out.impl_failure(&op2, &why);
+                    }
+                }
+                // the same literals written in another form (quoted -> raw string): whenever the
+                // engine calls the two ASTs equal, their std hashes, JSON and C-API hash must agree
+                let t4 = respell_literal_forms(&text, &mut rng);
+                if t4 != text {
+                    let op4 = format!("oracle asteq {} {}", hex(text.as_bytes()), hex(t4.as_bytes()));
+                    let why = ast_pair_defect(&core, &text, &t4, false);
+                    if let Some(why) = &why {
+                        out.impl_failure(&op4, why);
+                    }
+                    out.case(&op4, if why.is_none() { "ok" } else { "mismatch" }, None, &["json.literal-forms"]);
                 }
                 // structurally different filters serialize differently
                 if let Some((ptext, pans)) = &prev {
